@@ -329,7 +329,7 @@ int32 parseClientHelloExtensions(ssl_t *ssl, unsigned char **cp, unsigned short 
             Memset(ssl->sessionId, 0, SSL_MAX_SESSION_ID_SIZE);
             ssl->sessionIdLen = 0;
         }
-        if (ssl->keys && ssl->keys->sessTickets)
+        if (matrixSslHaveSessTicketKeys(ssl->keys))
         {
             ssl->sid->sessionTicketState = SESS_TICKET_STATE_RECVD_EXT;
         }
@@ -705,7 +705,7 @@ static int ClientHelloExt(ssl_t *ssl,
                     ssl->sessionIdLen = 0;
                 }
                 /* Issue another one if we have any keys */
-                if (ssl->keys && ssl->keys->sessTickets)
+                if (matrixSslHaveSessTicketKeys(ssl->keys))
                 {
                     ssl->sid->sessionTicketState = SESS_TICKET_STATE_RECVD_EXT;
                 }
@@ -721,7 +721,7 @@ static int ClientHelloExt(ssl_t *ssl,
         else
         {
             /* Request for session ticket.  Can we honor? */
-            if (ssl->keys && ssl->keys->sessTickets)
+            if (matrixSslHaveSessTicketKeys(ssl->keys))
             {
                 ssl->sid->sessionTicketState = SESS_TICKET_STATE_RECVD_EXT;
             }
